@@ -8,6 +8,10 @@ CONSTANTS
   FwdModes = {TRUE, FALSE}
   BugBypass <- BypassNone
   BugRewrap = FALSE
+  Layers = {1}
+  CtxStates = {"live"}
+  BugStackCollapse = FALSE
+  BugCtxOverride = FALSE
 INVARIANTS TypeOK ExactlyOneHookCall ResultUnchanged UnderlyingAtMostOnce PassThroughUntouched DerivedWrapped
 VIEW McView
 CHECK_DEADLOCK FALSE
